@@ -12,6 +12,45 @@ use std::io::{BufRead, BufReader, Write};
 
 pub type Dispatch = fn(usize) -> Option<&'static dyn TypeOps>;
 
+use std::sync::atomic::{AtomicI64, AtomicU64, Ordering::Relaxed};
+use std::sync::Mutex;
+static PROGRESS: AtomicU64 = AtomicU64::new(0);
+static CUR_CASE: AtomicI64 = AtomicI64::new(-1);
+static CUR_INPUT: Mutex<Vec<u8>> = Mutex::new(Vec::new());
+
+/// called before every call into the library with the input about to be used
+pub fn progress(input: &[u8]) {
+    PROGRESS.fetch_add(1, Relaxed);
+    if let Ok(mut g) = CUR_INPUT.lock() {
+        g.clear();
+        g.extend_from_slice(&input[..input.len().min(256)]);
+    }
+}
+
+/// A call that makes no progress for `secs` seconds is reported and the process exits with 3.
+fn start_watchdog(findings_path: String, secs: u64) {
+    std::thread::spawn(move || {
+        let mut last = (PROGRESS.load(Relaxed), CUR_CASE.load(Relaxed));
+        let mut since = std::time::Instant::now();
+        loop {
+            std::thread::sleep(std::time::Duration::from_millis(200));
+            let now = (PROGRESS.load(Relaxed), CUR_CASE.load(Relaxed));
+            if now != last {
+                last = now;
+                since = std::time::Instant::now();
+            } else if since.elapsed().as_secs() >= secs && now.1 >= 0 {
+                let input = CUR_INPUT.lock().map(|g| g.clone()).unwrap_or_default();
+                let line = json!({"case": now.1, "check": "hang", "props": ["C05"],
+                                  "detail": {"bytes": input, "seconds": secs}});
+                if let Ok(mut f) = std::fs::OpenOptions::new().append(true).create(true).open(&findings_path) {
+                    let _ = writeln!(f, "{line}");
+                }
+                std::process::exit(3);
+            }
+        }
+    });
+}
+
 pub struct Report {
     out: Box<dyn Write>,
     pub case_id: i64,
@@ -54,6 +93,8 @@ pub fn run_main(dispatch: Dispatch, handlers: &[(&str, Handler)]) {
         .map(|i| args[i + 1].parse().unwrap())
         .unwrap_or(0);
     crate::ops::install_panic_hook();
+    let hang_secs: u64 = std::env::var("DV_HANG_SECS").ok().and_then(|s| s.parse().ok()).unwrap_or(10);
+    start_watchdog(args[2].clone(), hang_secs);
     let input = BufReader::new(std::fs::File::open(&args[1]).expect("cases file"));
     let out = std::fs::OpenOptions::new()
         .create(true)
@@ -80,6 +121,8 @@ pub fn run_main(dispatch: Dispatch, handlers: &[(&str, Handler)]) {
             continue;
         }
         report.case_id = id;
+        CUR_CASE.store(id, Relaxed);
+        PROGRESS.fetch_add(1, Relaxed);
         std::fs::write(&cur_path, id.to_string()).ok();
         let kind = case["kind"].as_str().unwrap_or("");
         match handlers.iter().find(|(k, _)| *k == kind) {
@@ -90,12 +133,17 @@ pub fn run_main(dispatch: Dispatch, handlers: &[(&str, Handler)]) {
             }
         }
         n_cases += 1;
-        if n_cases % 64 == 0 {
-            report.out.flush().unwrap();
+        if n_cases % 50 == 0 {
+            // partial summary: survives a crash of this process
+            let line = json!({"summary": true, "partial": true, "pid": std::process::id(), "cases": n_cases,
+                              "findings": report.findings, "counts": report.counts, "skipped": report.skipped});
+            writeln!(report.out, "{line}").unwrap();
         }
+        report.out.flush().unwrap();
     }
     let mut m = Map::new();
     m.insert("summary".into(), json!(true));
+    m.insert("pid".into(), json!(std::process::id()));
     m.insert("cases".into(), json!(n_cases));
     m.insert("findings".into(), json!(report.findings));
     m.insert("counts".into(), json!(report.counts));
